@@ -9,7 +9,7 @@ LEAN_MODULES = ["ViaProofs.C01"]
 LEMMA_MODULES = ['ViaProofs.Frag.Lines', 'ViaProofs.Frag.Headers', 'ViaProofs.Frag.Compose', 'ViaProofs.C05', 'ViaProofs.Trans.RL', 'ViaProofs.Trans.FL', 'ViaProofs.Trans.CH', 'ViaProofs.Trans.MH', 'ViaProofs.Trans.CK', 'ViaProofs.Trans.RQ', 'ViaProofs.Trans.RR', 'ViaProofs.Trans.MHA', 'ViaProofs.Trans.RQP']
 REQUIRED_THEOREMS = ['Via.C01_frag', 'Via.RR.receive_head_seq', 'Via.RR.receive_head_fail_seq', 'Via.RR.receive_body_seq', "Via.RR.feedHead_flatten'"]
 LEVEL = "proof"
-LEVEL_TEXT = ("PROOF (Lean 4) that the model of the server's read loop delivers the same requests for every partition of a byte string into reads (C01_frag, fragmentation laws for every parser) and parses well-formed requests correctly in one read; the model's parse_char / parse / message_headers::parse / rx_chunk::parse are PROVED equal to a translation of the current C++ regenerated on every run, the receive() decision logic is tied by differential correspondence (real request_receiver vs model) on generated requests x partitions with a by-construction oracle. Right level: the property quantifies over all messages x all partitions, which only induction reaches; the tie to the code is exact for the translated functions and sampled for receive().")
+LEVEL_TEXT = ("PROOF (Lean 4) that the model of the server's read loop delivers the same requests for every partition of a byte string into reads (C01_frag, fragmentation laws for every parser) and parses well-formed requests correctly in one read; the model's parse_char / parse / message_headers::parse / rx_chunk::parse / rx_request::parse AND request_receiver::receive + clear (with the header look-ups and predicates they call) are PROVED equal to a translation of the current C++ regenerated on every run, under state conditions proved to hold for a fresh receiver and to be preserved, so the equality covers every sequence of reads (RR_reads_translated); in addition the real request_receiver is run against the model on generated requests x partitions (also after a rejected request on the same connection) with a by-construction oracle. Right level: the property quantifies over all messages x all partitions, which only induction reaches. Mapped by name, not translated: unordered_map::find, strtol, std::string::find; the per-read loop of http_server is modelled by hand and tied by the simulation checks.")
 RULE = ("well-formed requests (hand-written feature set + random within each configuration's limits) x partitions into reads "
         "(whole, byte-wise, line-wise, every single cut, every pair of cuts for short messages, cuts at structural offsets, "
         "random k-cuts) x configurations (limits, STRICT_CRLF, container, chunk concatenation, HEAD translation); expected "
